@@ -185,7 +185,11 @@ fn features(f: &FieldSpec) -> BTreeMap<String, String> {
     let mut m = BTreeMap::new();
     m.insert("type".into(), f.ty.clone());
     let kinds: Vec<String> = f.attrs.iter().flatten().map(|v| v.kind.clone()).collect();
-    m.insert("validators".into(), kinds.join("+"));
+    // the set of validators (sorted) and, separately, the order they were written in
+    let mut sorted = kinds.clone();
+    sorted.sort();
+    m.insert("validators".into(), sorted.join("+"));
+    m.insert("order".into(), kinds.join(">"));
     m.insert("attributes".into(), f.attrs.len().to_string());
     let bounds: BTreeSet<String> = f.attrs.iter().flatten().flat_map(|v| [v.min.clone(), v.max.clone()]).flatten().map(|b| bound_class(&b)).collect();
     m.insert("bounds".into(), if bounds.is_empty() { "-".into() } else { bounds.into_iter().collect::<Vec<_>>().join(",") });
@@ -320,6 +324,39 @@ pub fn field_specs(tier: Tier) -> Vec<FieldSpec> {
             // with messages on each validator
             let with_msg: Vec<Validator> = vals.iter().map(|x| Validator { message: Some(format!("{} failed", x.kind)), ..x.clone() }).collect();
             v.push(FieldSpec { ty: ty.into(), attrs: vec![with_msg] });
+        }
+    }
+    // (2b) exactly one validator of several carries a message: every carrier x every order, in one
+    // attribute and in separate attributes (a message belongs to its validator only)
+    fn perms(n: usize) -> Vec<Vec<usize>> {
+        if n == 2 {
+            vec![vec![0, 1], vec![1, 0]]
+        } else {
+            vec![vec![0, 1, 2], vec![0, 2, 1], vec![1, 0, 2], vec![1, 2, 0], vec![2, 0, 1], vec![2, 1, 0]]
+        }
+    }
+    for ty in ["String", "Option<String>"] {
+        for mask in [3u32, 5, 6, 7] {
+            let mut vals = vec![];
+            if mask & 1 != 0 {
+                vals.push(val("length", Some("1"), Some("10"), None));
+            }
+            if mask & 2 != 0 {
+                vals.push(val("email", None, None, None));
+            }
+            if mask & 4 != 0 {
+                vals.push(val("url", None, None, None));
+            }
+            for carrier in 0..vals.len() {
+                for perm in perms(vals.len()) {
+                    let ordered: Vec<Validator> = perm
+                        .iter()
+                        .map(|&i| if i == carrier { Validator { message: Some(format!("{} failed", vals[i].kind)), ..vals[i].clone() } } else { vals[i].clone() })
+                        .collect();
+                    v.push(FieldSpec { ty: ty.into(), attrs: vec![ordered.clone()] });
+                    v.push(FieldSpec { ty: ty.into(), attrs: ordered.iter().map(|x| vec![x.clone()]).collect() });
+                }
+            }
         }
     }
     // (3) message alphabet on length(String), range(i32), email
